@@ -295,6 +295,17 @@ impl MemoHeader {
     }
 
     pub(super) fn remove_outputs(&self, zalsa: &Zalsa, executor: DatabaseKeyIndex) {
+        #[cfg(salsa_verif)]
+        if crate::verif_trace::structs_enabled() {
+            crate::verif_trace::ts(
+                "remove_outputs",
+                format_args!(
+                    "{} {}",
+                    crate::verif_trace::K(executor),
+                    crate::tracked_struct::verif::pairs(self.revisions.tracked_struct_ids())
+                ),
+            );
+        }
         for stale_output in self.revisions.origin().outputs() {
             stale_output.remove_stale_output(zalsa, executor);
         }
